@@ -490,6 +490,26 @@ EvalData(e, st, P) ==
 
 \* ---- tuples, dicts, methods of str / list / dict, comprehensions, closures, f-strings
 SetVar(st, x, v) == [st EXCEPT !.env[VLookupIdx(st.env, x)] = (x :> v) @@ @]
+\* ---- user-defined methods (models_and_classes.md, derives_and_traits.md): a type's own method wins, then the methods it
+\*      inherits through `extends`, then the default methods of the traits it adopts (in `with` order)
+TraitDecl(P, n) == P.traits[CHOOSE i \in 1..Len(P.traits) : P.traits[i].name = n]
+MethodIn(ms, m) == LET S == {i \in 1..Len(ms) : ms[i].name = m /\ ms[i].body # <<>>} IN
+                   IF S = {} THEN [found |-> FALSE] ELSE [found |-> TRUE, d |-> ms[CHOOSE i \in S : TRUE]]
+RECURSIVE FindMethod(_, _, _)
+RECURSIVE FindInTraits(_, _, _)
+FindInTraits(P, ts, m) == IF ts = <<>> THEN [found |-> FALSE]
+                          ELSE LET r == MethodIn(TraitDecl(P, ts[1]).methods, m) IN IF r.found THEN r ELSE FindInTraits(P, Tail(ts), m)
+FindMethod(P, tn, m) ==
+  LET td == TypeDecl(P, tn)
+      own == MethodIn(td.methods, m) IN
+  IF own.found THEN own
+  ELSE LET up == IF td.parent = "" THEN [found |-> FALSE] ELSE FindMethod(P, td.parent, m) IN
+       IF up.found THEN up ELSE FindInTraits(P, td.traits, m)
+\* store v at the place denoted by an lvalue path (a variable, or a field of a path)
+RECURSIVE WritePath(_, _, _, _)
+WritePath(st, lv, v, P) ==
+  IF lv.k = "ident" THEN SetVar(st, lv.name, v)
+  ELSE LET o == EvalE(lv.obj, st, P) IN WritePath(st, lv.obj, [o.v EXCEPT !.fs[lv.field] = v], P)
 EvalColl(e, st, P) ==
   CASE e.k = "tuple" -> LET as == EvalArgs(e.items, st, P, <<>>) IN IF ~as.ok THEN as ELSE R(TRUE, TupleV(as.v.xs), "", as.st)
     [] e.k = "tfield" -> LET o == EvalE(e.obj, st, P) IN IF ~o.ok THEN o ELSE R(TRUE, o.v.xs[e.idx + 1], "", o.st)
@@ -508,7 +528,17 @@ EvalColl(e, st, P) ==
          ELSE LET as == EvalArgs(e.args, o.st, P, <<>>) IN
               IF ~as.ok THEN as
               ELSE LET av == as.v.xs  m == e.name  rv == o.v IN
-                   CASE rv.t = "str" /\ m = "upper" -> R(TRUE, StrV(StrUpper(rv.sv)), "", as.st)
+                   CASE rv.t = "model" ->      \* user-defined method: `self` is the receiver; a `mut self` method stores self back
+                          LET md == FindMethod(P, rv.ty, m).d IN
+                          IF as.st.fuel = 0 THEN R(FALSE, NoneVal, Fuel, as.st)
+                          ELSE LET frame == ("self" :> rv) @@ [p \in {md.params[i].name : i \in 1..Len(md.params)} |->
+                                                               av[CHOOSE i \in 1..Len(md.params) : md.params[i].name = p]]
+                                   inner == ExecBlock(md.body, [as.st EXCEPT !.env = <<P.cenv, frame>>, !.fuel = @ - 1, !.sig = "n",
+                                                                            !.ret = NoneVal], P) IN
+                               IF inner.sig = "err" THEN R(FALSE, NoneVal, inner.err, inner)
+                               ELSE LET back == [inner EXCEPT !.env = as.st.env, !.sig = "n", !.ret = as.st.ret] IN
+                                    R(TRUE, inner.ret, "", IF md.recv = "mutself" THEN WritePath(back, e.recv, inner.env[2]["self"], P) ELSE back)
+                     [] rv.t = "str" /\ m = "upper" -> R(TRUE, StrV(StrUpper(rv.sv)), "", as.st)
                      [] rv.t = "str" /\ m = "lower" -> R(TRUE, StrV(StrLower(rv.sv)), "", as.st)
                      [] rv.t = "str" /\ m = "strip" -> R(TRUE, StrV(StrStrip(rv.sv)), "", as.st)
                      [] rv.t = "str" /\ m = "split" ->
@@ -534,6 +564,14 @@ EvalColl(e, st, P) ==
                            ELSE R(TRUE, NoneVal, "", SetVar(as.st, e.recv.name, ListV([rv.xs EXCEPT ![i] = rv.xs[j], ![j] = rv.xs[i]]))))
                      [] rv.t = "dict" /\ m = "insert" -> R(TRUE, NoneVal, "", SetVar(as.st, e.recv.name, DictPut(rv, av[1], av[2])))
                      [] OTHER -> R(FALSE, NoneVal, "UNSPECIFIED: unknown expression kind", as.st)
+    [] e.k = "ctord" ->       \* constructor with named arguments (in source order); omitted fields take their declared defaults
+         LET as == EvalArgs(e.args, st, P, <<>>) IN
+         IF ~as.ok THEN as
+         ELSE LET td == TypeDecl(P, e.name)
+                  given == [f \in {e.fnames[i] : i \in 1..Len(e.fnames)} |-> as.v.xs[CHOOSE i \in 1..Len(e.fnames) : e.fnames[i] = f]]
+                  dflt == [f \in {td.defaults[i].name : i \in 1..Len(td.defaults)} |->
+                             EvalE(td.defaults[CHOOSE i \in 1..Len(td.defaults) : td.defaults[i].name = f].e, as.st, P).v] IN
+              R(TRUE, [t |-> "model", ty |-> e.name, fs |-> given @@ dflt], "", as.st)
     [] e.k = "closure" -> R(TRUE, [t |-> "clos", params |-> e.params, body |-> e.body], "", st)
     [] e.k = "callv" ->       \* call of a closure held in a variable: arguments left to right, then the body with the parameters bound;
                               \* captured names are immutable bindings of the enclosing function (same value at creation and at the call)
@@ -629,6 +667,9 @@ ExecStmt(s, st, P) ==
                    ELSE LET j == NormIndex(Len(cur.xs), i.v.iv) IN
                         IF j = -1 THEN [i.st EXCEPT !.sig = "err", !.err = "UNSPECIFIED: list assignment index out of range"]
                         ELSE SetVar(i.st, s.name, ListV([cur.xs EXCEPT ![j + 1] = v.v]))
+    [] s.k = "setfield" ->      \* path.f = e / path.f <op>= e : the right-hand side, then the store into the place
+         LET v == EvalE(IF s.op = "" THEN s.e ELSE [k |-> "bin", op |-> s.op, l |-> s.target, r |-> s.e], st, P) IN
+         IF ~v.ok THEN ErrSt(st, v) ELSE WritePath(v.st, s.target, v.v, P)
     [] s.k = "matchs" ->        \* statement-level match: the FIRST arm whose pattern matches and whose guard holds runs its block
          LET n == Len(st.env)
              s0 == EvalE(s.subj, st, P) IN
@@ -693,7 +734,9 @@ ConstEnv(cs, env, P) ==
        ELSE ConstEnv(Tail(cs), (cs[1].name :> r.v) @@ env, P)
 
 Run(P0) ==
-  LET P1 == [consts |-> P0.consts, fns |-> P0.fns, cenv |-> <<>>]
+  LET P1 == [consts |-> P0.consts, fns |-> P0.fns, cenv |-> <<>>,
+             types |-> IF "types" \in DOMAIN P0 THEN P0.types ELSE <<>>,
+             traits |-> IF "traits" \in DOMAIN P0 THEN P0.traits ELSE <<>>]
       ce == ConstEnv(P1.consts, <<>>, P1) IN
   IF ~ce.ok THEN [out |-> <<>>, status |-> "consterr", err |-> ce.err]
   ELSE LET P == [P1 EXCEPT !.cenv = ce.env]
